@@ -53,8 +53,14 @@ def cmp_tables(ctx):
         plan.append((c, "laws", [o for o in text if o["null"] or not o["v"] or o["v"][-1] != 0]))
     for c, kind, objs in plan:
         lines.append("class %s %s" % (c, kind))
-        for o in objs[:250]:
+        objs = objs[:250]
+        for o in objs:
             lines.append("obj %s %s %s" % (tok(o["null"]), tok(o["k"]), tok(o["v"])))
+        if c in ("str", "ustr", "mbuff"):
+            # the same values again in representations with spare capacity (different amounts): equal values stay EQUAL
+            for n, o in enumerate(objs):
+                if not o["null"]:
+                    lines.append("obj %s %s %s %d" % (tok(o["null"]), tok(o["k"]), tok(o["v"]), 1 + (n * 7) % 19))
         lines.append("end")
     inp = os.path.join(ctx.rundir, "cmp-input.txt")
     open(inp, "w").write("\n".join(lines) + "\n")
@@ -152,7 +158,7 @@ SMALL_NA = {
     "objpair": ["OpNewFromPtr", "OpSetFlags", "OpEval", "OpMatches", "OpBSetFlags", "OpBEval"],
     "tok": ["OpNewFromKey", "OpNewFromValue", "OpNewFromBoth", "OpSetFlags", "OpMatches", "OpBSetFlags"],
     "url": ["OpNew", "OpNewFromKey", "OpNewFromValue", "OpNewFromBoth", "OpSetP", "OpSetFlags", "OpEval", "OpMatches", "OpBSetFlags", "OpBEval"],
-    "regexp": ["OpNewFromKey", "OpNewFromValue", "OpNewFromBoth", "OpSetP", "OpSetQ", "OpEval", "OpBSetQ", "OpBEval"],
+    "regexp": ["OpNewFromKey", "OpNewFromValue", "OpNewFromBoth", "OpSetP", "OpSetQ", "OpEval", "OpBSetQ", "OpBEval", "OpClearQ", "OpBClearQ"],
 }
 
 
@@ -178,7 +184,7 @@ def small_objects(ctx):
     walks = (200, 30) if ctx.tier == "quick" else (3000, 60)
     for c in SMALL:
         g, res = objcheck.tlc_graph(ctx, "MC_SmallObj.tla", "SmallObj_%s.cfg" % c, ignore_untaken=SMALL_NA[c], workers=2)
-        objcheck.replay_cover(ctx, g, [tok(SMALL_INIT)], exe, c, [c], small_key, walks=walks)
+        objcheck.replay_cover(ctx, g, [tok(SMALL_INIT)], exe, c, [c], small_key, walks=walks, pairs=200000)
 
 
 def container_dup(ctx):
